@@ -25,14 +25,14 @@ const (
 
 // Frame is one RFC 6455 frame.  Payload is always the unmasked payload.
 type Frame struct {
-	Fin     bool   `json:"fin"`
-	Rsv1    bool   `json:"rsv1,omitempty"`
-	Rsv2    bool   `json:"rsv2,omitempty"`
-	Rsv3    bool   `json:"rsv3,omitempty"`
-	Opcode  byte   `json:"op"`
-	Masked  bool   `json:"masked,omitempty"`
+	Fin     bool    `json:"fin"`
+	Rsv1    bool    `json:"rsv1,omitempty"`
+	Rsv2    bool    `json:"rsv2,omitempty"`
+	Rsv3    bool    `json:"rsv3,omitempty"`
+	Opcode  byte    `json:"op"`
+	Masked  bool    `json:"masked,omitempty"`
 	Key     [4]byte `json:"key"`
-	Payload []byte `json:"payload,omitempty"`
+	Payload []byte  `json:"payload,omitempty"`
 
 	// Encoding controls (encoder only).
 	// LenForm forces the length encoding: 0 = minimal, 7, 16 or 64.
